@@ -42,7 +42,7 @@ Lemma firstn_skipn0_all {A} (l : list A) n : length l = n -> firstn n (skipn 0 l
 Proof. intros <-. cbn [skipn]. apply firstn_all. Qed.
 
 (* ------------------------------------------------------------------ struct rstate in memory *)
-Definition rs_cells (bl : nat) (p : nat) (marks : list Z) (pc flg dep : Z) : list val :=
+Definition rs_cells (bl : nat) (p : nat) (marks : list Z) (pc flg dep : Z) : block :=
   VPtr bl (Z.of_nat p) :: VPtr bl 0 :: map VInt marks ++ [VInt pc; VInt flg; VInt dep].
 
 Section RsCells.
@@ -333,4 +333,247 @@ Section ReRec.
     rewrite (chk_I32 (Z.of_nat pc + 1)) by lia. xstep. cbn [fst snd].
     rewrite (st_pc _ p' marks _ dep Hm' Hlen). xstep. rewrite upd_upd by exact Fb. reflexivity.
   Qed.
+
+  (* ---------------------------------------------------------------- RI_FORK: save, recurse, restore *)
+  Definition out_ok (o : out st) : Prop := match o with Found _ _ | Fail => True | _ => False end.
+  Definition ret_of (o : out st) : Z := match o with Found _ _ => 0 | _ => 1 end.
+  (* the memory after a call of re_rec: the state block replaced, the saved states of the forks appended; on success the
+     block holds the model's final state *)
+  Definition post (m : mem) (o : out st) (m' : mem) : Prop :=
+    exists extra p' marks' pc' dep', m' = upd m br (rs_cells bl p' marks' pc' flg dep') ++ extra /\ length marks' = 128%nat /\
+      match o with Found _ s => s = (p', marks') | _ => True end.
+  Notation mrec := (ReVM.rec st (atom_step flg line) mark_step P).
+  (* what a call of re_rec at call depth cd does when the model runs at depth dm (rs->dep = NDEPT - dm) *)
+  Definition rec_spec (cd dm : nat) : Prop := forall m pc p marks o c,
+    frame m -> (pc < length P)%nat -> nth_error m br = Some (rs_cells bl p marks (Z.of_nat pc) flg (256 - Z.of_nat dm)) ->
+    length marks = 128%nat -> (p <= length line)%nat ->
+    mrec dm pc (p, marks) = (o, c) -> out_ok o ->
+    exists m', callf cprog fuel cd F_re_rec [VPtr bre 0; VPtr br 0] m = Ok (VInt (ret_of o), m') /\ post m o m'.
+
+  Lemma post_shift m A E o m' : (br < length m)%nat -> post (upd (m ++ E) br A) o m' -> post m o m'.
+  Proof.
+    intros Hb [extra [p' [marks' [pc' [dep' [Hm' [Hl Ho]]]]]]].
+    exists (E ++ extra), p', marks', pc', dep'. split; [|split; assumption].
+    rewrite Hm'. rewrite upd_upd by (rewrite app_length; lia). rewrite upd_app_mem by exact Hb. rewrite app_assoc. reflexivity.
+  Qed.
+  Lemma post_shift0 m A o m' : (br < length m)%nat -> post (upd m br A) o m' -> post m o m'.
+  Proof. intros Hb Hp. apply (post_shift m A [] o m' Hb). rewrite app_nil_r. exact Hp. Qed.
+  Lemma post_self m R o : nth_error m br = Some R ->
+    (exists p' marks' pc' dep', R = rs_cells bl p' marks' pc' flg dep' /\ length marks' = 128%nat /\
+       match o with Found _ s => s = (p', marks') | _ => True end) -> post m o m.
+  Proof.
+    intros Hm [p' [marks' [pc' [dep' [-> [Hl Ho]]]]]]. exists [], p', marks', pc', dep'. split; [|split; assumption].
+    rewrite app_nil_r. symmetry. apply upd_self. exact Hm.
+  Qed.
+
+  Lemma memcpy_save (m : mem) (R : block) : nth_error m br = Some R -> length R = 133%nat ->
+    do_builtin_m BMemcpy [VPtr (length m) 0; VPtr br 0; VInt 133] (m ++ [repeat VUndef (Z.to_nat 133)]) = Ok (VPtr (length m) 0, m ++ [R]).
+  Proof.
+    intros Hm HR. assert (Hb : (br < length m)%nat) by (apply nth_error_Some; congruence).
+    rewrite (memcpy_ok _ (length m) 0 br 0 133 (repeat VUndef (Z.to_nat 133)) R); try lia.
+    - change (Z.to_nat 0) with 0%nat. change (Z.to_nat 133) with 133%nat. rewrite firstn_skipn0_all by exact HR.
+      rewrite put_cells_all by (rewrite repeat_length; exact HR). rewrite upd_app_new. reflexivity.
+    - apply nth_error_app_new.
+    - rewrite nth_error_app_old by exact Hb. exact Hm.
+    - rewrite repeat_length. lia.
+  Qed.
+  Lemma memcpy_restore (m : mem) (R R' : block) (E : list block) : (br < length m)%nat -> length R = 133%nat -> length R' = 133%nat ->
+    do_builtin_m BMemcpy [VPtr br 0; VPtr (length m) 0; VInt 133] (upd m br R' ++ R :: E) = Ok (VPtr br 0, upd m br R ++ R :: E).
+  Proof.
+    intros Hb HR HR'.
+    assert (Hd : nth_error (upd m br R' ++ R :: E) br = Some R').
+    { rewrite nth_error_app1 by (rewrite upd_length; exact Hb). apply mem_upd_same. exact Hb. }
+    assert (Hs : nth_error (upd m br R' ++ R :: E) (length m) = Some R).
+    { rewrite nth_error_app2 by (rewrite upd_length; [lia|exact Hb]). rewrite upd_length by exact Hb. rewrite Nat.sub_diag. reflexivity. }
+    rewrite (memcpy_ok _ br 0 (length m) 0 133 R' R Hd Hs); try lia.
+    change (Z.to_nat 0) with 0%nat. change (Z.to_nat 133) with 133%nat. rewrite firstn_skipn0_all by exact HR.
+    rewrite put_cells_all by lia. rewrite upd_app_mem by (rewrite upd_length; exact Hb). rewrite upd_upd by exact Hb. reflexivity.
+  Qed.
+
+  Lemma body_fork dm m p marks pc a1 a2 v2 v3 lf o1 c1 : rec_spec D dm -> frame m -> (pc < length P)%nat ->
+    nth_error m br = Some (rs_cells bl p marks (Z.of_nat pc) flg (256 - Z.of_nat dm)) -> length marks = 128%nat -> (p <= length line)%nat ->
+    nth pc P IMatch = IFork a1 a2 -> mrec dm a1 (p, marks) = (o1, c1) -> out_ok o1 ->
+    exists st', exec call lf re_rec_body (mkst [VPtr bre 0; VPtr br 0; v2; v3] m)
+                = (match o1 with Found _ _ => OReturn (VInt 0) st' | _ => OContinue st' end) /\
+      match o1 with
+      | Found _ _ => post m o1 (memm st')
+      | _ => exists extra, st' = mkst [VPtr bre 0; VPtr br 0; VPtr bp (0 + 6 * Z.of_nat pc); VPtr (length m) 0]
+                                      (upd m br (rs_cells bl p marks (Z.of_nat a2) flg (256 - Z.of_nat dm)) ++ extra)
+      end.
+  Proof.
+    intros Hrec F Hpc Hm Hlen Hpl Hi Hr1 Hok. pose proof (Hclosed pc Hpc) as Hc. rewrite Hi in Hc. destruct Hc as [Hc1 Hc2].
+    assert (Hb : (br < length m)%nat) by apply F.
+    set (dep := 256 - Z.of_nat dm) in *.
+    set (R := rs_cells bl p marks (Z.of_nat pc) flg dep) in *.
+    assert (HR : length R = 133%nat) by (apply rs_length; exact Hlen).
+    body_pre F Hpc Hm Hlen Hi. destruct Hat as [Hri [Ha1 Ha2]]. cbn [ri_code] in Hri.
+    do 4 ri_test Hp Hri.
+    rewrite (malloc_ok m 133) by lia. xstep. rewrite (memcpy_save m R Hm HR). xstep.
+    (* rs->pc = ri->a1 in the memory m ++ [R] *)
+    assert (Fa : frame (m ++ [R])) by (apply frame_app; exact F).
+    assert (Hma : nth_error (m ++ [R]) br = Some R) by (rewrite nth_error_app_old by exact Hb; exact Hm).
+    assert (Hpa : nth_error (m ++ [R]) bp = Some cells) by (rewrite nth_error_app1 by (apply nth_error_Some; congruence); exact Hp).
+    rewrite (ld_ri _ _ _ 3 _ Hpa Ha1 ltac:(lia)). xstep. rewrite !(wrap_I32_id (Z.of_nat a1)) by lia.
+    rewrite (st_pc _ p marks _ dep Hma Hlen). xstep.
+    set (R1 := rs_cells bl p marks (Z.of_nat a1) flg dep).
+    assert (F2 : frame (upd (m ++ [R]) br R1)) by (apply frame_upd; exact Fa).
+    assert (Hm2 : nth_error (upd (m ++ [R]) br R1) br = Some R1) by (apply mem_upd_same; rewrite app_length; lia).
+    destruct (Hrec _ a1 p marks o1 c1 F2 Hc1 Hm2 Hlen Hpl Hr1 Hok) as [m3 [Hcall Hpost]].
+    rewrite Hcall. xstep.
+    destruct o1 as [cs s1| | |w]; cbn [ret_of out_ok] in *; try contradiction; xstep.
+    - eexists. split; [reflexivity|]. cbn [memm]. exact (post_shift m R1 [R] _ m3 Hb Hpost).
+    - destruct Hpost as [extra [p' [marks' [pc' [dep' [Hm3 [Hl' _]]]]]]].
+      assert (E3 : m3 = upd m br (rs_cells bl p' marks' pc' flg dep') ++ R :: extra).
+      { rewrite Hm3. rewrite upd_upd by (rewrite app_length; lia). rewrite upd_app_mem by exact Hb. rewrite <- app_assoc. reflexivity. }
+      rewrite E3. rewrite (memcpy_restore m R _ extra Hb HR) by (apply rs_length; exact Hl'). xstep.
+      rewrite (upd_self m br R Hm).
+      assert (Hm4 : nth_error (m ++ R :: extra) br = Some R) by (rewrite nth_error_app1 by exact Hb; exact Hm).
+      assert (Hp4 : nth_error (m ++ R :: extra) bp = Some cells) by (rewrite nth_error_app1 by (apply nth_error_Some; congruence); exact Hp).
+      rewrite (ld_ri _ _ _ 4 _ Hp4 Ha2 ltac:(lia)). xstep. rewrite !(wrap_I32_id (Z.of_nat a2)) by lia.
+      rewrite (st_pc _ p marks _ dep Hm4 Hlen). xstep.
+      eexists. split; [reflexivity|]. exists (R :: extra). rewrite upd_app_mem by exact Hb. reflexivity.
+  Qed.
+
+  (* ---------------------------------------------------------------- the loop, following the model's loopF *)
+  Lemma loop_eq : re_rec_loop = SWhile (EConst 1) re_rec_body.
+  Proof. reflexivity. Qed.
+  Lemma mark_step_fst mk s : fst (mark_step mk s) = fst s.
+  Proof. unfold mark_step. destruct (_ <? _); reflexivity. Qed.
+  Lemma mark_step_len mk s : length (snd (mark_step mk s)) = length (snd s).
+  Proof. unfold mark_step. destruct (_ <? _); [|reflexivity]. cbn [snd]. apply revm_upd_length. Qed.
+
+  (* rs->dep--; return ri->ri != RI_MATCH;  reached only through `break`, i.e. at RI_MATCH *)
+  Lemma tail_match m p marks dep pc v3 lf : frame m -> (pc < length P)%nat ->
+    nth_error m br = Some (rs_cells bl p marks (Z.of_nat pc) flg dep) -> length marks = 128%nat -> -2147483647 <= dep <= 2147483647 ->
+    nth pc P IMatch = IMatch ->
+    exec call lf re_rec_tail (mkst [VPtr bre 0; VPtr br 0; VPtr bp (0 + 6 * Z.of_nat pc); v3] m)
+    = OReturn (VInt 0) (mkst [VPtr bre 0; VPtr br 0; VPtr bp (0 + 6 * Z.of_nat pc); v3] (upd m br (rs_cells bl p marks (Z.of_nat pc) flg (dep + -1)))).
+  Proof.
+    intros F Hpc Hm Hlen Hdep Hi. destruct (fetch_at _ _ F Hpc) as [cells [Hp [Lp Hat]]]. rewrite Hi in Hat. destruct Hat as [Hri _].
+    cbn [ri_code] in Hri. unfold re_rec_tail; cbn [fn_body cf_re_rec]. xstep.
+    rewrite (ld_dep _ _ _ _ _ Hm Hlen). xstep. rewrite (wrap_I32_id dep) by lia. rewrite (chk_I32 (dep + -1)) by lia. xstep. cbn [fst snd].
+    rewrite (st_dep _ _ _ _ _ Hm Hlen). xstep.
+    assert (Hp' : nth_error (upd m br (rs_cells bl p marks (Z.of_nat pc) flg (dep + -1))) bp = Some cells)
+      by (rewrite mem_upd_other; [exact Hp|apply F|congruence]).
+    rewrite (ld_ri _ _ _ 2 _ Hp' Hri ltac:(lia)). xstep. wrap_const. zeqb_const. reflexivity.
+  Qed.
+
+  Lemma loop_ok dm fuel2 : rec_spec D dm -> (dm <= 256)%nat -> forall k m pc p marks v2 v3 lf o c,
+    frame m -> (pc < length P)%nat -> nth_error m br = Some (rs_cells bl p marks (Z.of_nat pc) flg (256 - Z.of_nat dm)) ->
+    length marks = 128%nat -> (p <= length line)%nat ->
+    loopF st (atom_step flg line) mark_step P (mrec dm) k pc (p, marks) = (o, c) -> out_ok o -> (k <= lf)%nat ->
+    exists st', match exec call lf re_rec_loop (mkst [VPtr bre 0; VPtr br 0; v2; v3] m) with
+                | ONormal st1 => exec call fuel2 re_rec_tail st1
+                | o => o
+                end = OReturn (VInt (ret_of o)) st' /\ post m o (memm st').
+  Proof.
+    intros Hrec Hdm. induction k as [|k IH]; intros m pc p marks v2 v3 lf o c F Hpc Hm Hlen Hpl Hl Hok Hlf.
+    { cbn [loopF] in Hl. injection Hl as <- _. contradiction. }
+    destruct lf as [|lf]; [lia|]. assert (Hb : (br < length m)%nat) by apply F.
+    rewrite loop_eq, exec_while. xstep. cbn [loopF] in Hl. unfold fetch in Hl.
+    pose proof (Hclosed pc Hpc) as Hc.
+    destruct (nth pc P IMatch) as [a|mk|t|a1 a2|] eqn:Hi.
+    - (* RI_ATOM *)
+      rewrite (body_atom m p marks _ pc a v2 v3 _ F Hpc Hm Hlen Hpl Hi).
+      unfold atom_step in Hl. cbn [fst snd] in Hl.
+      destruct (ratom_match flg line a p) as [[p'|]| |] eqn:Ea; cbn [ReSyntax.bind] in Hl.
+      + destruct (ReProps8.ratom_match_range flg line a p p' Hpl Ea) as [_ Hp'].
+        replace (Z.of_nat pc + 1) with (Z.of_nat (S pc)) by lia. rewrite <- loop_eq.
+        destruct (IH (upd m br (rs_cells bl p' marks (Z.of_nat (S pc)) flg (256 - Z.of_nat dm))) (S pc) p' marks
+                     (VPtr bp (0 + 6 * Z.of_nat pc)) v3 lf o c (frame_upd _ _ F) Hc (mem_upd_same _ _ _ Hb) Hlen Hp' Hl Hok ltac:(lia))
+          as [st' [X Y]].
+        exists st'. split; [exact X|]. exact (post_shift0 m _ o _ Hb Y).
+      + injection Hl as <- _. eexists. split; [reflexivity|]. cbn [memm].
+        unfold atom_fail_mem. destruct a; try (apply (post_self m _ Fail Hm); eexists _, _, _, _; split; [reflexivity|split; [exact Hlen|exact I]]).
+        destruct (brk_advanced flg line p).
+        * eexists [], _, _, _, _. rewrite app_nil_r. split; [reflexivity|]. split; [exact Hlen|exact I].
+        * apply (post_self m _ Fail Hm); eexists _, _, _, _; split; [reflexivity|split; [exact Hlen|exact I]].
+      + injection Hl as <- _. contradiction.
+      + injection Hl as <- _. contradiction.
+    - (* RI_MARK *)
+      rewrite (body_mark m p marks _ pc mk v2 v3 _ F Hpc Hm Hlen Hpl Hi).
+      replace (Z.of_nat pc + 1) with (Z.of_nat (S pc)) by lia. rewrite <- loop_eq.
+      pose proof (mark_step_fst mk (p, marks)) as E1. pose proof (mark_step_len mk (p, marks)) as E2. cbn [fst snd] in E1, E2.
+      destruct (mark_step mk (p, marks)) as [p1 marks1] eqn:Ems. cbn [fst snd] in *. subst p1.
+      destruct (IH (upd m br (rs_cells bl p marks1 (Z.of_nat (S pc)) flg (256 - Z.of_nat dm))) (S pc) p marks1
+                   (VPtr bp (0 + 6 * Z.of_nat pc)) v3 lf o c (frame_upd _ _ F) Hc (mem_upd_same _ _ _ Hb) ltac:(lia) Hpl Hl Hok ltac:(lia))
+        as [st' [X Y]].
+      exists st'. split; [exact X|]. exact (post_shift0 m _ o _ Hb Y).
+    - (* RI_JUMP *)
+      rewrite (body_jump m p marks _ pc t v2 v3 _ F Hpc Hm Hlen Hi). rewrite <- loop_eq.
+      destruct (IH (upd m br (rs_cells bl p marks (Z.of_nat t) flg (256 - Z.of_nat dm))) t p marks
+                   (VPtr bp (0 + 6 * Z.of_nat pc)) v3 lf o c (frame_upd _ _ F) Hc (mem_upd_same _ _ _ Hb) Hlen Hpl Hl Hok ltac:(lia))
+        as [st' [X Y]].
+      exists st'. split; [exact X|]. exact (post_shift0 m _ o _ Hb Y).
+    - (* RI_FORK *)
+      destruct Hc as [Hc1 Hc2].
+      destruct (mrec dm a1 (p, marks)) as [o1 c1] eqn:Er1.
+      assert (Hok1 : out_ok o1).
+      { destruct o1; cbn [out_ok]; try exact I; injection Hl as <- _; exact Hok. }
+      destruct (body_fork dm m p marks pc a1 a2 v2 v3 (S lf) o1 c1 Hrec F Hpc Hm Hlen Hpl Hi Er1 Hok1) as [st1 [X Y]].
+      rewrite X. destruct o1 as [cs r| | |w]; try contradiction.
+      + injection Hl as <- _. exists st1. split; [reflexivity|]. exact Y.
+      + destruct Y as [extra ->]. rewrite <- loop_eq.
+        destruct (loopF st (atom_step flg line) mark_step P (mrec dm) k a2 (p, marks)) as [o2 c2] eqn:El2.
+        assert (Hok2 : out_ok o2 /\ ret_of o = ret_of o2 /\ forall mm mm', post mm o2 mm' -> post mm o mm').
+        { destruct o2; injection Hl as <- _; cbn [out_ok ret_of] in *; auto. }
+        destruct Hok2 as [Hok2 [Hret Hpost]].
+        assert (F4 : frame (upd m br (rs_cells bl p marks (Z.of_nat a2) flg (256 - Z.of_nat dm)) ++ extra))
+          by (apply frame_app, frame_upd; exact F).
+        assert (Hm4 : nth_error (upd m br (rs_cells bl p marks (Z.of_nat a2) flg (256 - Z.of_nat dm)) ++ extra) br
+                      = Some (rs_cells bl p marks (Z.of_nat a2) flg (256 - Z.of_nat dm))).
+        { rewrite nth_error_app1 by (rewrite upd_length; exact Hb). apply mem_upd_same. exact Hb. }
+        destruct (IH _ a2 p marks (VPtr bp (0 + 6 * Z.of_nat pc)) (VPtr (length m) 0) lf o2 c2 F4 Hc2 Hm4 Hlen Hpl El2 Hok2 ltac:(lia))
+          as [st' [X2 Y2]].
+        exists st'. rewrite Hret. split; [exact X2|]. apply Hpost.
+        rewrite <- upd_app_mem in Y2 by exact Hb. exact (post_shift m _ extra o2 _ Hb Y2).
+    - (* RI_MATCH *)
+      injection Hl as <- _.
+      rewrite (body_match m p marks _ pc v2 v3 _ F Hpc Hm Hlen Hi).
+      rewrite (tail_match m p marks _ pc v3 fuel2 F Hpc Hm Hlen ltac:(lia) Hi).
+      eexists. split; [reflexivity|]. cbn [memm]. eexists [], _, _, _, _. rewrite app_nil_r. split; [reflexivity|]. split; [exact Hlen|reflexivity].
+  Qed.
+
+  (* ---------------------------------------------------------------- one activation of re_rec *)
+  Hypothesis HfP : (length P < fuel)%nat.
+  Lemma re_rec_call dm : rec_spec D dm -> (S dm <= 256)%nat -> rec_spec (S D) (S dm).
+  Proof.
+    intros Hrec Hdm m pc p marks o c F Hpc Hm Hlen Hpl Hr Hok. assert (Hb : (br < length m)%nat) by apply F.
+    cbn [ReVM.rec] in Hr.
+    enter F_re_rec cf_re_rec. xstep.
+    rewrite (ld_dep _ _ _ _ _ Hm Hlen). xstep. rewrite (wrap_I32_id (256 - Z.of_nat (S dm))) by lia.
+    destruct (Z.leb_spec 256 (256 - Z.of_nat (S dm))); [lia|]. xstep.
+    rewrite (ld_dep _ _ _ _ _ Hm Hlen). xstep. rewrite (wrap_I32_id (256 - Z.of_nat (S dm))) by lia.
+    rewrite (chk_I32 (256 - Z.of_nat (S dm) + 1)) by lia. xstep. cbn [fst snd].
+    rewrite (st_dep _ _ _ _ _ Hm Hlen). xstep.
+    replace (256 - Z.of_nat (S dm) + 1) with (256 - Z.of_nat dm) by lia.
+    pose proof (loop_ok dm fuel Hrec ltac:(lia) (S (length P)) _ pc p marks (VInt 0) VUndef fuel o c
+                  (frame_upd _ _ F) Hpc (mem_upd_same _ _ _ Hb) Hlen Hpl Hr Hok ltac:(lia)) as [st' [X Y]].
+    unfold re_rec_loop, re_rec_tail in X; cbn [fn_body cf_re_rec] in X.
+    match type of X with ?L = _ => match goal with |- context [match ?L' with ONormal _ => _ | _ => _ end] => change L' with L end end.
+    rewrite X. eexists. split; [reflexivity|]. exact (post_shift0 m _ o _ Hb Y).
+  Qed.
+
+  (* rs->dep >= NDEPT: return 1 at once (the model counts a cut) *)
+  Lemma rec_spec_0 cd : rec_spec (S cd) 0.
+  Proof.
+    intros m pc p marks o c F Hpc Hm Hlen Hpl Hr Hok. cbn [ReVM.rec] in Hr. injection Hr as <- _.
+    enter F_re_rec cf_re_rec. xstep. rewrite (ld_dep _ _ _ _ _ Hm Hlen). xstep. change (256 - Z.of_nat 0) with 256. xstep.
+    eexists. split; [reflexivity|]. apply (post_self m _ Fail Hm). eexists _, _, _, _. split; [reflexivity|]. split; [exact Hlen|exact I].
+  Qed.
 End ReRec.
+
+(* ------------------------------------------------------------------ re_rec = ReVM.rec, every depth *)
+Theorem tr_re_rec bre bp br bl P cflg flg line fuel :
+  br <> bre -> br <> bp -> br <> bl -> (length cglobals <= br)%nat -> bytes_lt256 line -> -2147483648 <= flg <= 2147483647 ->
+  (length line < fuel)%nat -> (cls_fuel <= fuel)%nat -> Z.of_nat (length line) < 2147483647 -> Z.of_nat (length P) < 2147483647 ->
+  prog_closed P -> (length P < fuel)%nat ->
+  forall dm e, (dm <= 256)%nat -> rec_spec bre bp br bl P cflg flg line fuel (S (S (S (S (S (S (S (dm + e))))))) ) dm.
+Proof.
+  intros H1 H2 H3 H4 H5 H6 H7 H8 H9 H10 H11 H12. induction dm as [|dm IH]; intros e Hdm.
+  - apply rec_spec_0.
+  - assert (Hprev : rec_spec bre bp br bl P cflg flg line fuel (S (S (S (S (S (S (S (dm + e))))))) ) dm) by (apply IH; lia).
+    change (S dm + e)%nat with (S (dm + e)).
+    exact (re_rec_call bre bp br bl P cflg flg line fuel H1 H2 H3 H4 H5 H6 H7 H8 H9 H10 H11 (S (dm + e)) H12 dm Hprev Hdm).
+Qed.
+Print Assumptions tr_re_rec.
